@@ -441,7 +441,10 @@ def extra_step(world, job, orc, k, op, full, hits, tags):
         norc.prev = shown(new)
         return res, new, norc
     # ---- execute_sync
-    _, h, rs, rh, d = op
+    _, h, rs, rh, _ = op
+    # the sleep the loop must make: refresh_progress_delay of THIS object (constructor argument of the first object of
+    # the history; the default, 3, for every object re-created by rerun / _from_dict / from_id)
+    d = full["cur_delay"]
     clock = full["clock"]
     clock.sleeps = []
     world.begin(k, rs, h, h2=rh, pending_ok=True)
@@ -531,6 +534,7 @@ def run_history(world: World, ops, full=None):
         job = world.RemoteJob({"payload": {}}, world.handler, "verif")
     else:
         full["clock"].now = float(full["t0"])
+        full["cur_delay"] = full["delay"]
         job = world.RemoteJob({"payload": {}}, world.handler, full["name"], refresh_progress_delay=full["delay"])
     orc = Oracle(False)
     outs, hits, tags = [], [], set()
@@ -539,7 +543,10 @@ def run_history(world: World, ops, full=None):
         if full is not None:
             full["clock"].now = float(full["times"][k - 1])
         if kind in EXTRA_KINDS:
+            old_job = job
             res, job, orc = extra_step(world, job, orc, k, op, full, hits, tags)
+            if job is not old_job:
+                full["cur_delay"] = 3
             sh = shown(job)
             if orc.final is not None and sh != orc.final:
                 hits.append(("final-status-changed", k, f"step {k}: status shown went from {orc.final} to {sh}"))
@@ -774,6 +781,8 @@ def run_history(world: World, ops, full=None):
         if kind == "r" and new_job is not None and op[4]:
             job = new_job
             orc = Oracle(True)
+            if full is not None:
+                full["cur_delay"] = 3
         sh = shown(job)
         if orc.final is not None and sh != orc.final:
             hits.append(("final-status-changed", k, f"step {k}: status shown went from {orc.final} to {sh}"))
@@ -1404,7 +1413,7 @@ def gen_full(rng, max_len):
     if first < 0.3:
         op = gen_sync(rng, cur_delay)
         ops.append([now, op])
-        now += len(op[2]) * cur_delay
+        now += len(op[2]) * max(d0, 3)      # at least what the loop can sleep, whichever object runs it
         started = True
     elif first < 0.9:
         ops.append([now, ["x", OK if rng.random() < 0.9 else rand_h(rng)]])
@@ -1455,7 +1464,7 @@ def gen_full(rng, max_len):
             op = gen_sync(rng, cur_delay)
         ops.append([now, op])
         if op[0] == "y":
-            now += len(op[2]) * op[4]
+            now += len(op[2]) * max(d0, 3)
     return hist
 
 
@@ -1540,7 +1549,9 @@ def full_alphabet():
 
 def check_full(chk, world):
     rng = chk.rng
-    hists = [gen_full(rng, chk.pick(16, 40)) for _ in range(chk.pick(1500, 12000))]
+    hists = [dict(h) for h in load_corpus("full")]
+    ncorpus = len(hists)
+    hists += [gen_full(rng, chk.pick(16, 40)) for _ in range(chk.pick(1500, 12000))]
     # exhaustive: every history of length <= 3 (quick) / 4 (thorough: reduced alphabet) over the full alphabet
     alpha = full_alphabet()
     depth = 3
@@ -1579,7 +1590,8 @@ def check_full(chk, world):
                      None if exh else {"source": "full", "len": len(h["fops"]), "fops": h["fops"][:4]})
             if r is not None:
                 report_full(chk, world, clock, r)
-    chk.extra["full_machine"] = {"random_histories": len(hists) - nex, "exhaustive_histories": nex,
+    chk.extra["full_machine"] = {"random_histories": len(hists) - nex - ncorpus, "corpus_histories": ncorpus,
+                                 "exhaustive_histories": nex,
                                  "letters": len(alpha), "seconds": round(time.time() - t0, 1)}
 
 
@@ -1675,10 +1687,12 @@ def check_sync_clock(chk, world, n):
 
 
 # ------------------------------------------------------------------------------------------------
-def load_corpus():
+def load_corpus(key="ops"):
     out = []
     for p in sorted(glob.glob(os.path.join(core.VERIF, "corpus", "C17", "*.json"))):
-        out.append(json.load(open(p))["ops"])
+        d = json.load(open(p))
+        if key in d:
+            out.append(d[key])
     return out
 
 
